@@ -64,6 +64,8 @@ def main():
     from nbdime import diff as gdiff
     install()
     tool = tool_name()
+    import prelude
+    PRELUDE = prelude.maybe_abort_prelude()
     results = []
     for t in tasks:
         del CALLS[:]
